@@ -24,6 +24,29 @@ FILTER_PAETH = {'kind': 'fn', 'file': E, 'name': 'filter_paeth', 'props': ['C05'
         {'rule': 'R7', 'regex': r'\((p - i[abc])\)\.abs\(\)', 'replace': r'hoist_abs_i16(\1)', 'count': 3},
     ]}
 
+# OPTIONAL (hardening round 3): a helper `filter_avg(<left>, <up>) -> u8` that the Average arm may be factored into (it is not in
+# the pinned text, where the mean is computed inline). Its contract is the PNG specification 9.3: "Average(x) + floor((Recon(a) +
+# Recon(b)) / 2)", the sum formed WITHOUT overflow (over the integers). The parameter names are read off the tree under verification
+# (the contract is about the two arguments, whatever they are called). With the contract in place `unfilter` verifies against the
+# helper's POSTCONDITION, and the helper's own body is checked against it: a correct extraction verifies, one that loses the carry
+# (`left / 2 + up / 2`) fails `filter_avg/avg_is_png`. On a tree without the helper the item renders as nothing.
+def _avg_params():
+    import re
+    from vlib import assemble
+    try:
+        _raw, sig, _body = assemble.locate({'kind': 'fn', 'file': E, 'name': 'filter_avg'})
+        m = re.search(r'fn\s+filter_avg\s*\(\s*(\w+)\s*:\s*u8\s*,\s*(\w+)\s*:\s*u8\s*,?\s*\)', sig)
+        if m:
+            return m.group(1), m.group(2)
+    except Exception:
+        pass
+    return 'left', 'up'
+
+
+_A, _B = _avg_params()
+FILTER_AVG = {'kind': 'fn', 'file': E, 'name': 'filter_avg', 'props': ['C05', 'C01'], 'optional': True,
+    'ensures': [('avg_is_png', 'r == ((%s as int + %s as int) / 2) as u8' % (_A, _B))]}
+
 UNFILTER = {'kind': 'fn', 'file': E, 'name': 'unfilter', 'props': ['C05', 'C01'],
     # the two assert_eq! at the top of the function; the only call site in /repo (flate_decode) passes three
     # slices of length `stride`
@@ -53,6 +76,7 @@ UNIT = {
  'items': {
    'enum PredictorType': ENUM_PREDICTOR,
    'filter_paeth': FILTER_PAETH,
+   'filter_avg': FILTER_AVG,
    'unfilter': UNFILTER,
  },
  'kani': {
